@@ -453,6 +453,9 @@ def items(tier, rng):
     for algo in ("dijkstra", "astar", "bfs", "dfs"):
         out.append({"name": algo + "_k3_maxiter", "harness": "h_search",
                     "params": {"algo": algo, "n": 3, "arcs": K3, "src": 0, "dst": 2, "use_max_iter": True, "labels": "str"}})
+    for algo in ("dijkstra", "astar", "bfs", "dfs"):  # the start is already the goal
+        out.append({"name": algo + "_src_is_dst", "harness": "h_search",
+                    "params": {"algo": algo, "n": 3, "arcs": [(0, 1), (1, 2), (2, 0), (0, 0)], "src": 0, "dst": 0, "goal_pred": algo in ("astar", "dfs")}})
     for algo in ("bfs", "dfs"):
         out.append({"name": algo + "_explore_k4", "harness": "h_explore", "split": 5, "params": {"algo": algo, "n": 4, "arcs": K4, "src": 0}})
     # fixed-topology, symbolic-weight solvers
